@@ -250,6 +250,34 @@ OPT_ATTRS = [("definition", "str"), ("unit", "unit"), ("uncertainty", "num"), ("
              ("dependency", "str"), ("dependency_value", "str"), ("value_origin", "str")]
 
 
+def _ob_section_history(first: int, kind: int, v: int, via_props: bool) -> bool:
+    """
+    pre: 0 <= first < 2 and 0 <= kind < 4
+    post: __return__
+    """
+    f, sec = _sec()                         # ONE Section object for the whole history
+    sec.create_property("p1", [1, 2])
+    sec.create_property("p2", ["x"])
+    if len(sec) != 2 or "p1" not in sec:
+        return False
+    order = ("p1", "p2") if first == 0 else ("p2", "p1")
+    for k in order:                         # delete every property: the container becomes empty
+        if via_props:
+            del sec.props[k]
+        else:
+            del sec[k]
+    if len(sec) != 0 or "p1" in sec or "p2" in sec or [x for x in sec.props] != []:
+        return False
+    val = _value(kind, v, 1)
+    sec["p1"] = val                         # ... and is filled again
+    if not ("p1" in sec and len(sec) == 1 and [p.name for p in sec.props] == ["p1"]):
+        return False
+    if not _same(list(sec.props["p1"].values), [val]):
+        return False
+    fresh = f.sections["sec"]
+    return [p.name for p in fresh.props] == ["p1"] and _same(list(fresh.props["p1"].values), [val])
+
+
 def _ob_optional_attrs(ai: int, vi: int, wi: int) -> bool:
     """
     pre: 0 <= ai < 7 and 0 <= vi < 6 and 0 <= wi < 6
@@ -344,6 +372,10 @@ OBLIGATIONS = [
        replay=lambda a: _real("_ob_assign_extend", a)),
     Ob("clear_keeps_type", _ob_clear, timeout=600, partition=["none", "empty", "delete"],
        functions=[_P + "delete_values", _P + "values"], replay=lambda a: _real("_ob_clear", a)),
+    Ob("section_emptied_and_refilled", _ob_section_history, timeout=600,
+       functions=["nixio.section.Section.__delitem__", "nixio.section.Section.__setitem__",
+                  "nixio.section.Section.create_property", "nixio.container.Container.__delitem__"],
+       replay=lambda a: _real("_ob_section_history", a)),
     Ob("optional_attributes", _ob_optional_attrs, timeout=900,
        functions=[_P + "unit", _P + "uncertainty", _P + "definition", _P + "reference",
                   _P + "dependency", _P + "dependency_value", _P + "value_origin"],
